@@ -35,7 +35,7 @@ def register(reg):
             "implies(forall(STR, lambda k: get0(reactant, k) <= get0(product, k) and get0(reactant, k) >= 0)"
             " and exists(STR, lambda k: get0(reactant, k) != get0(product, k)), result == 'Reactants')",
         ],
-        props=["C07", "C01", "C04"])
+        props=["C07", "C01", "C04", "C14"])
 
     reg.contract(
         F, "RSMIComparator.diff_dicts",
@@ -66,4 +66,4 @@ def register(reg):
             ]},
         },
         locals_types={"diff_dict": COMP},
-        props=["C07", "C08"])
+        props=["C07", "C08", "C14"])
